@@ -3,7 +3,7 @@
    Pairwise dictionaries are association lists with distinct keys and non-negative
    counts; an absent pair counts as 0 (pget0).  beats a b := cnt(b,a) < cnt(a,b). *)
 From Coq Require Import ZArith List Arith Sorted Lia.
-From VL Require Import Prelude.PyDict Model.GetNBest Model.Condorcet Proofs.Condorcet_proofs.
+From VL Require Import Prelude.PyDict Model.GetNBest Model.Condorcet Proofs.Condorcet_proofs Proofs.Smith_proofs.
 Import ListNotations.
 Open Scope Z_scope.
 
@@ -34,14 +34,23 @@ Theorem C06_smith_prefix_closed : forall v ties,
    forall w l, In (w, l) wins -> (index_of l order < E)%nat -> (index_of w order < E)%nat).
 Proof. exact smith_schwartz_closed. Qed.
 
-(* full statements kept visible; the Smith minimality/domination part and the Schwartz
-   clause are decided per case by brute-force references in the correspondence run *)
+(* SmithSet computes exactly the Smith set: its output is a dominating set (non-empty, every member strictly beats
+   every candidate outside it - an absent pair counting as 0 : 0), and it is contained in every dominating set, hence
+   the smallest one.  For every pairwise dictionary with at least two candidates, sparse or dense. *)
 Definition dominating (v : pvotes) (S : list C) : Prop :=
   S <> [] /\ forall a b, In a S -> In b (candidates v) -> ~ In b S -> beats v a b.
-Definition C06_smith_full_statement : Prop :=
-  forall v, NoDup (map fst v) -> (forall p n, In (p, n) v -> 0 <= n) ->
-    dominating v (smith_schwartz v true) /\
-    forall S, dominating v S -> incl (smith_schwartz v true) S.
+Theorem C06_smith_set : forall v : pvotes,
+  NoDup (map fst v) -> (forall p n, In (p, n) v -> 0 <= n) -> (2 <= length (candidates v))%nat ->
+  dominating v (smith_schwartz v true) /\
+  forall S, dominating v S -> incl (smith_schwartz v true) S.
+Proof.
+  intros v Hnd Hnn H2. split.
+  - exact (smith_dominating v H2).
+  - intros S [Hne Hdom]. exact (smith_minimal v Hnn H2 S Hne Hdom).
+Qed.
+
+(* the Schwartz clause: full statement kept visible; refuted on the pinned tree (known finding C06-schwartz),
+   decided per case by a brute-force reference in the correspondence run *)
 Definition undominated (v : pvotes) (S : list C) : Prop :=
   S <> [] /\ forall a b, In a S -> In b (candidates v) -> ~ In b S -> ~ beats v b a.
 Definition C06_schwartz_full_statement : Prop :=
@@ -84,4 +93,5 @@ Proof. vm_compute. reflexivity. Qed.
 Print Assumptions C06_cw_spec.
 Print Assumptions C06_cw_unique.
 Print Assumptions C06_smith_prefix_closed.
+Print Assumptions C06_smith_set.
 Print Assumptions C06_schwartz_refuted.
